@@ -276,6 +276,7 @@ func c18Jobs(thorough bool) []json.RawMessage {
 		{Name: "two-shutdown-callers", Clients: []c18.Client{cl(c18.Busy, 500*ms, 0)}, ExitWait: long, Shutdowns: 2},
 		{Name: "shutdown-twice", Clients: []c18.Client{cl(c18.Busy, 0, 0)}, ExitWait: short, Again: true},
 		{Name: "shutdown-before-run", BeforeRun: true, ExitWait: short},
+		{Name: "second-run-while-serving", Clients: []c18.Client{cl(c18.Busy, 500*ms, 0)}, ExitWait: long, Hooks: []time.Duration{0}, ShutdownDelay: 100 * ms, SecondRun: true},
 		{Name: "hooks-fast-slow-beyond", Clients: []c18.Client{cl(c18.Busy, 0, 0)}, ExitWait: short, Hooks: []time.Duration{0, 500 * ms, 20 * sec}},
 		{Name: "late-connector", Clients: []c18.Client{cl(c18.Busy, 0, 0), cl(c18.Late, 0, 2*sec)}, ExitWait: short},
 		{Name: "no-clients", ExitWait: long, Hooks: []time.Duration{0, 0}},
